@@ -146,3 +146,102 @@ def h_params_structure(ctx, cfg):
         pass
     opt = [ast.unparse(p.value) for p in parts if "var_" in ast.unparse(p.value)]
     ctx.prove("optional_parts_present_iff_the_name_is_set", z3.BoolVal(all(" if args.var_" in t and t.rstrip().endswith("else ()") for t in opt) and len(opt) == 2), detail=repr(opt))
+
+
+# ---------------------------------------------------------------------------------------------------------------------------
+# Args.parameters / len(args) for every length (replaces the reliance on the <=2-names enumeration for order, kinds and total)
+# ---------------------------------------------------------------------------------------------------------------------------
+class _SegElem(object):
+    """The generic element of one symbolic-length group: stands for group[i] at every 0 <= i < len(group), in order."""
+
+    def __init__(self, seq):
+        self.seq = seq
+
+    def __bool__(self):
+        raise Unsupported("truth value of a generic parameter name (a filter on the names is outside rule 6)")
+
+    def __eq__(self, o):
+        if o is self:
+            return True
+        raise Unsupported("comparison of a generic parameter name")
+
+    __hash__ = object.__hash__
+
+
+class _SegSeq(SymSeq):
+    """A group of names of symbolic length whose iteration yields its generic element once (rule 6: the consumer is a map-only generator)."""
+
+    def __iter__(self):
+        yield _SegElem(self)
+
+    def __getitem__(self, i):
+        r = SymSeq.__getitem__(self, i)
+        return _SegSeq(r.s) if isinstance(r, SymSeq) else r       # a slice of a group is a (different) group
+
+    def __add__(self, o):
+        r = SymSeq.__add__(self, o)
+        return _SegSeq(r.s)
+
+
+class _SegOrderedDict(object):
+    """Abstract view of the OrderedDict built from (name, kind) pairs: the insertion-ordered list of segments / single entries.
+    WF: parameter names are pairwise distinct, so no entry collapses and the size is the sum of the parts."""
+
+    def __init__(self, pairs=()):
+        self.pairs = []
+        for p in pairs:
+            if not (isinstance(p, tuple) and len(p) == 2):
+                raise Unsupported("OrderedDict built from something else than (key, value) pairs")
+            self.pairs.append(p)
+
+    def plen(self):
+        n = z3.IntVal(0)
+        for k, _ in self.pairs:
+            n = n + (z3.Length(k.seq.s) if isinstance(k, _SegElem) else 1)
+        return SymInt(z3.simplify(n))
+
+    def items(self):
+        return list(self.pairs)
+
+
+def _register_params_unbounded():
+    import code_data as CD
+    import code_data._args as A_
+    from inspect import _ParameterKind as K
+
+    for va, vk in itertools.product([False, True], repeat=2):
+        def h(ctx, cfg, va=va, vk=vk):
+            ns = rewrite.load(A, ["args_to_parameters"], hooks={"len": plen}, extra_ns={"OrderedDict": _SegOrderedDict}, tag="_args_params")
+            ns_cd = rewrite.load(CD, ["Args"], hooks={"len": plen}, tag="_Args_len")
+            po, pk, ko = (_SegSeq(z3.Const(n, SymSeq.fresh("x").s.sort())) for n in ("positional_only", "positional_or_keyword", "keyword_only"))
+            for n_, s_ in (("positional_only", po), ("positional_or_keyword", pk), ("keyword_only", ko)):
+                ctx.input(n_, s_)
+            van = SymName(z3.Int("var_positional")) if va else None
+            vkn = SymName(z3.Int("var_keyword")) if vk else None
+            a = ns_cd["Args"](po, pk, van, ko, vkn)
+            saved = A_.args_to_parameters
+            A_.args_to_parameters = ns["args_to_parameters"]       # Args.parameters imports it from the module at call time
+            try:
+                params = a.parameters
+                total = plen(a)
+            finally:
+                A_.args_to_parameters = saved
+            ctx.prove("engine.parameters_built_by_the_function_under_contract", z3.BoolVal(isinstance(params, _SegOrderedDict)))
+            got = [((k.seq if isinstance(k, _SegElem) else k), kind) for k, kind in params.items()]
+            want = [(po, K.POSITIONAL_ONLY), (pk, K.POSITIONAL_OR_KEYWORD)] + ([(van, K.VAR_POSITIONAL)] if va else []) + [(ko, K.KEYWORD_ONLY)] + ([(vkn, K.VAR_KEYWORD)] if vk else [])
+            ok = len(got) == len(want) and all(g[0] is w[0] and g[1] is w[1] for g, w in zip(got, want))
+            ctx.prove("post.parameters_are_the_groups_in_signature_order_each_name_with_its_kind", z3.BoolVal(ok), detail=repr([(type(g[0]).__name__, g[1]) for g in got]))
+            ctx.prove("post.len_is_the_total_parameter_count",
+                      Z(total) == z3.Length(po.s) + z3.Length(pk.s) + z3.Length(ko.s) + (1 if va else 0) + (1 if vk else 0))
+        harness("args.parameters_and_len.every_length[*args=%d,**kwargs=%d]" % (va, vk), props=["C04"],
+                functions=["code_data._args.args_to_parameters", "code_data.Args.__len__", "code_data.Args.parameters"], configs="any",
+                assumes=["rule 6 (generic-element rule): a generator without a filter, star-unpacked into a tuple display, maps its group element-wise and in order - "
+                         "the group's iteration yields its generic element once; a truth test or comparison on that element makes the run undecided",
+                         "OrderedDict keeps insertion order; duplicate names collapse (WF: parameter names are distinct), so its size is the sum of the parts",
+                         "WF: parameter names are non-empty strings"],
+                notes="the real args_to_parameters, Args.parameters and Args.__len__ run on three groups of symbolic length (z3 sequences) and optional *args/**kwargs names: "
+                      "the mapping lists positional-only, positional-or-keyword, *args, keyword-only, **kwargs in that order with the kind CPython binds each as, and len(args) is the "
+                      "sum of the group lengths plus one per optional name - for every length, not only the enumerated shapes")(h)
+
+
+_register_params_unbounded()
